@@ -1,5 +1,5 @@
 // auto-generated: "lalrpop 0.23.1"
-// sha3: fa4a870fc1a115da0698831e36c42b39f331682807d72000d49df593733d1847
+// sha3: 7adf67c9b3ebf627b8aa8310f84d80b117beaa17835312ea1a18dc4127cde591
 use crate::rt::*;
 #[allow(unused_extern_crates)]
 extern crate lalrpop_util as __lalrpop_util;
@@ -29,35 +29,23 @@ mod __parse__S {
     }
     const __ACTION: &[i8] = &[
         // State 0
-        8, 9, 0, 4,
+        5, -3, -3, -3,
         // State 1
-        8, 9, 0, 0,
+        0, 6, -5, -5,
         // State 2
-        8, 9, 0, 0,
+        0, 0, 8, -7,
         // State 3
-        8, 9, 0, 0,
+        0, 0, 0, 0,
         // State 4
-        8, 9, 0, 0,
+        0, -4, -4, -4,
         // State 5
-        0, 0, 0, 0,
+        0, 0, -6, -6,
         // State 6
-        0, 0, 5, 0,
+        0, 0, 0, 9,
         // State 7
-        0, 12, 0, 0,
+        0, 0, 0, -8,
         // State 8
-        -8, -8, -8, -8,
-        // State 9
-        0, 0, 0, 14,
-        // State 10
-        -6, -6, -6, -6,
-        // State 11
-        -7, -7, -7, -7,
-        // State 12
         0, 0, 0, 0,
-        // State 13
-        0, 0, 0, 0,
-        // State 14
-        -5, -5, 0, -5,
     ];
     fn __action(state: i8, integer: usize) -> i8 {
         __ACTION[(state as usize) * 4 + integer]
@@ -70,46 +58,24 @@ mod __parse__S {
         // State 2
         0,
         // State 3
-        0,
+        -10,
         // State 4
         0,
         // State 5
-        -9,
+        0,
         // State 6
         0,
         // State 7
         0,
         // State 8
-        -8,
-        // State 9
-        0,
-        // State 10
-        -6,
-        // State 11
-        -7,
-        // State 12
-        -4,
-        // State 13
-        -3,
-        // State 14
-        -5,
+        -9,
     ];
     fn __goto(state: i8, nt: usize) -> i8 {
         match nt {
-            2 => 5,
-            3 => match state {
-                1 => 9,
-                3 => 12,
-                _ => 1,
-            },
-            4 => match state {
-                4 => 14,
-                _ => 6,
-            },
-            5 => match state {
-                2 => 10,
-                _ => 2,
-            },
+            2 => 1,
+            3 => 2,
+            4 => 6,
+            5 => 3,
             _ => 0,
         }
     }
@@ -291,41 +257,47 @@ mod __parse__S {
             }
             2 => {
                 __state_machine::SimulatedReduce::Reduce {
-                    states_to_pop: 3,
+                    states_to_pop: 0,
                     nonterminal_produced: 2,
                 }
             }
             3 => {
                 __state_machine::SimulatedReduce::Reduce {
-                    states_to_pop: 2,
+                    states_to_pop: 1,
                     nonterminal_produced: 2,
                 }
             }
             4 => {
                 __state_machine::SimulatedReduce::Reduce {
-                    states_to_pop: 3,
+                    states_to_pop: 0,
                     nonterminal_produced: 3,
                 }
             }
             5 => {
                 __state_machine::SimulatedReduce::Reduce {
-                    states_to_pop: 2,
-                    nonterminal_produced: 4,
+                    states_to_pop: 1,
+                    nonterminal_produced: 3,
                 }
             }
             6 => {
                 __state_machine::SimulatedReduce::Reduce {
-                    states_to_pop: 2,
-                    nonterminal_produced: 5,
+                    states_to_pop: 0,
+                    nonterminal_produced: 4,
                 }
             }
             7 => {
                 __state_machine::SimulatedReduce::Reduce {
                     states_to_pop: 1,
+                    nonterminal_produced: 4,
+                }
+            }
+            8 => {
+                __state_machine::SimulatedReduce::Reduce {
+                    states_to_pop: 4,
                     nonterminal_produced: 5,
                 }
             }
-            8 => __state_machine::SimulatedReduce::Accept,
+            9 => __state_machine::SimulatedReduce::Accept,
             _ => panic!("invalid reduction index {__reduce_index}")
         }
     }
@@ -427,6 +399,9 @@ mod __parse__S {
                 __reduce7(__lookahead_start, __symbols, core::marker::PhantomData::<()>)
             }
             8 => {
+                __reduce8(__lookahead_start, __symbols, core::marker::PhantomData::<()>)
+            }
+            9 => {
                 // __S = S => ActionFn(0);
                 let __sym0 = __pop_Variant2(__symbols);
                 let __start = __sym0.0.clone();
@@ -484,10 +459,10 @@ mod __parse__S {
         _: core::marker::PhantomData<()>,
     ) -> (usize, usize)
     {
-        // @L =  => ActionFn(8);
+        // @L =  => ActionFn(9);
         let __start = __lookahead_start.cloned().or_else(|| __symbols.last().map(|s| s.2.clone())).unwrap_or_default();
         let __end = __start.clone();
-        let __nt = super::__action8::<>(&__start, &__end);
+        let __nt = super::__action9::<>(&__start, &__end);
         __symbols.push((__start, __Symbol::Variant1(__nt), __end));
         (0, 0)
     }
@@ -498,10 +473,10 @@ mod __parse__S {
         _: core::marker::PhantomData<()>,
     ) -> (usize, usize)
     {
-        // @R =  => ActionFn(7);
+        // @R =  => ActionFn(8);
         let __start = __lookahead_start.cloned().or_else(|| __symbols.last().map(|s| s.2.clone())).unwrap_or_default();
         let __end = __start.clone();
-        let __nt = super::__action7::<>(&__start, &__end);
+        let __nt = super::__action8::<>(&__start, &__end);
         __symbols.push((__start, __Symbol::Variant1(__nt), __end));
         (0, 1)
     }
@@ -512,16 +487,12 @@ mod __parse__S {
         _: core::marker::PhantomData<()>,
     ) -> (usize, usize)
     {
-        // S = X, X, "d" => ActionFn(15);
-        assert!(__symbols.len() >= 3);
-        let __sym2 = __pop_Variant0(__symbols);
-        let __sym1 = __pop_Variant2(__symbols);
-        let __sym0 = __pop_Variant2(__symbols);
-        let __start = __sym0.0.clone();
-        let __end = __sym2.2.clone();
-        let __nt = super::__action15::<>(__sym0, __sym1, __sym2);
+        // A =  => ActionFn(17);
+        let __start = __lookahead_start.cloned().or_else(|| __symbols.last().map(|s| s.2.clone())).unwrap_or_default();
+        let __end = __start.clone();
+        let __nt = super::__action17::<>(&__start, &__end);
         __symbols.push((__start, __Symbol::Variant2(__nt), __end));
-        (3, 2)
+        (0, 2)
     }
     fn __reduce3<
     >(
@@ -530,15 +501,13 @@ mod __parse__S {
         _: core::marker::PhantomData<()>,
     ) -> (usize, usize)
     {
-        // S = "d", X => ActionFn(16);
-        assert!(__symbols.len() >= 2);
-        let __sym1 = __pop_Variant2(__symbols);
+        // A = "a" => ActionFn(18);
         let __sym0 = __pop_Variant0(__symbols);
         let __start = __sym0.0.clone();
-        let __end = __sym1.2.clone();
-        let __nt = super::__action16::<>(__sym0, __sym1);
+        let __end = __sym0.2.clone();
+        let __nt = super::__action18::<>(__sym0);
         __symbols.push((__start, __Symbol::Variant2(__nt), __end));
-        (2, 2)
+        (1, 2)
     }
     fn __reduce4<
     >(
@@ -547,16 +516,12 @@ mod __parse__S {
         _: core::marker::PhantomData<()>,
     ) -> (usize, usize)
     {
-        // X = Y, "c", Y => ActionFn(17);
-        assert!(__symbols.len() >= 3);
-        let __sym2 = __pop_Variant2(__symbols);
-        let __sym1 = __pop_Variant0(__symbols);
-        let __sym0 = __pop_Variant2(__symbols);
-        let __start = __sym0.0.clone();
-        let __end = __sym2.2.clone();
-        let __nt = super::__action17::<>(__sym0, __sym1, __sym2);
+        // B =  => ActionFn(19);
+        let __start = __lookahead_start.cloned().or_else(|| __symbols.last().map(|s| s.2.clone())).unwrap_or_default();
+        let __end = __start.clone();
+        let __nt = super::__action19::<>(&__start, &__end);
         __symbols.push((__start, __Symbol::Variant2(__nt), __end));
-        (3, 3)
+        (0, 3)
     }
     fn __reduce5<
     >(
@@ -565,15 +530,13 @@ mod __parse__S {
         _: core::marker::PhantomData<()>,
     ) -> (usize, usize)
     {
-        // Y = Z, Z => ActionFn(18);
-        assert!(__symbols.len() >= 2);
-        let __sym1 = __pop_Variant2(__symbols);
-        let __sym0 = __pop_Variant2(__symbols);
+        // B = "b" => ActionFn(20);
+        let __sym0 = __pop_Variant0(__symbols);
         let __start = __sym0.0.clone();
-        let __end = __sym1.2.clone();
-        let __nt = super::__action18::<>(__sym0, __sym1);
+        let __end = __sym0.2.clone();
+        let __nt = super::__action20::<>(__sym0);
         __symbols.push((__start, __Symbol::Variant2(__nt), __end));
-        (2, 4)
+        (1, 3)
     }
     fn __reduce6<
     >(
@@ -582,15 +545,12 @@ mod __parse__S {
         _: core::marker::PhantomData<()>,
     ) -> (usize, usize)
     {
-        // Z = "a", "b" => ActionFn(19);
-        assert!(__symbols.len() >= 2);
-        let __sym1 = __pop_Variant0(__symbols);
-        let __sym0 = __pop_Variant0(__symbols);
-        let __start = __sym0.0.clone();
-        let __end = __sym1.2.clone();
-        let __nt = super::__action19::<>(__sym0, __sym1);
+        // C =  => ActionFn(21);
+        let __start = __lookahead_start.cloned().or_else(|| __symbols.last().map(|s| s.2.clone())).unwrap_or_default();
+        let __end = __start.clone();
+        let __nt = super::__action21::<>(&__start, &__end);
         __symbols.push((__start, __Symbol::Variant2(__nt), __end));
-        (2, 5)
+        (0, 4)
     }
     fn __reduce7<
     >(
@@ -599,13 +559,32 @@ mod __parse__S {
         _: core::marker::PhantomData<()>,
     ) -> (usize, usize)
     {
-        // Z = "b" => ActionFn(20);
+        // C = "c" => ActionFn(22);
         let __sym0 = __pop_Variant0(__symbols);
         let __start = __sym0.0.clone();
         let __end = __sym0.2.clone();
-        let __nt = super::__action20::<>(__sym0);
+        let __nt = super::__action22::<>(__sym0);
         __symbols.push((__start, __Symbol::Variant2(__nt), __end));
-        (1, 5)
+        (1, 4)
+    }
+    fn __reduce8<
+    >(
+        __lookahead_start: Option<&i64>,
+        __symbols: &mut alloc::vec::Vec<(i64,__Symbol<>,i64)>,
+        _: core::marker::PhantomData<()>,
+    ) -> (usize, usize)
+    {
+        // S = A, B, C, "d" => ActionFn(23);
+        assert!(__symbols.len() >= 4);
+        let __sym3 = __pop_Variant0(__symbols);
+        let __sym2 = __pop_Variant2(__symbols);
+        let __sym1 = __pop_Variant2(__symbols);
+        let __sym0 = __pop_Variant2(__symbols);
+        let __start = __sym0.0.clone();
+        let __end = __sym3.2.clone();
+        let __nt = super::__action23::<>(__sym0, __sym1, __sym2, __sym3);
+        __symbols.push((__start, __Symbol::Variant2(__nt), __end));
+        (4, 5)
     }
 }
 #[allow(unused_imports)]
@@ -626,48 +605,43 @@ fn __action1<
     (_, l, _): (i64, i64, i64),
     (_, c0, _): (i64, Tree, i64),
     (_, c1, _): (i64, Tree, i64),
-    (_, c2, _): (i64, Tok, i64),
+    (_, c2, _): (i64, Tree, i64),
+    (_, c3, _): (i64, Tok, i64),
     (_, r, _): (i64, i64, i64),
 ) -> Tree
 {
-    node("S#0", l, r, vec![Tree::from(c0), Tree::from(c1), Tree::from(c2)])
+    node("S#0", l, r, vec![Tree::from(c0), Tree::from(c1), Tree::from(c2), Tree::from(c3)])
 }
 
 #[allow(clippy::too_many_arguments, clippy::needless_lifetimes, clippy::just_underscores_and_digits, clippy::extra_unused_type_parameters)]
 fn __action2<
 >(
     (_, l, _): (i64, i64, i64),
-    (_, c0, _): (i64, Tok, i64),
-    (_, c1, _): (i64, Tree, i64),
     (_, r, _): (i64, i64, i64),
 ) -> Tree
 {
-    node("S#1", l, r, vec![Tree::from(c0), Tree::from(c1)])
+    node("A#0", l, r, vec![])
 }
 
 #[allow(clippy::too_many_arguments, clippy::needless_lifetimes, clippy::just_underscores_and_digits, clippy::extra_unused_type_parameters)]
 fn __action3<
 >(
     (_, l, _): (i64, i64, i64),
-    (_, c0, _): (i64, Tree, i64),
-    (_, c1, _): (i64, Tok, i64),
-    (_, c2, _): (i64, Tree, i64),
+    (_, c0, _): (i64, Tok, i64),
     (_, r, _): (i64, i64, i64),
 ) -> Tree
 {
-    node("X#0", l, r, vec![Tree::from(c0), Tree::from(c1), Tree::from(c2)])
+    node("A#1", l, r, vec![Tree::from(c0)])
 }
 
 #[allow(clippy::too_many_arguments, clippy::needless_lifetimes, clippy::just_underscores_and_digits, clippy::extra_unused_type_parameters)]
 fn __action4<
 >(
     (_, l, _): (i64, i64, i64),
-    (_, c0, _): (i64, Tree, i64),
-    (_, c1, _): (i64, Tree, i64),
     (_, r, _): (i64, i64, i64),
 ) -> Tree
 {
-    node("Y#0", l, r, vec![Tree::from(c0), Tree::from(c1)])
+    node("B#0", l, r, vec![])
 }
 
 #[allow(clippy::too_many_arguments, clippy::needless_lifetimes, clippy::just_underscores_and_digits, clippy::extra_unused_type_parameters)]
@@ -675,26 +649,35 @@ fn __action5<
 >(
     (_, l, _): (i64, i64, i64),
     (_, c0, _): (i64, Tok, i64),
-    (_, c1, _): (i64, Tok, i64),
     (_, r, _): (i64, i64, i64),
 ) -> Tree
 {
-    node("Z#0", l, r, vec![Tree::from(c0), Tree::from(c1)])
+    node("B#1", l, r, vec![Tree::from(c0)])
 }
 
 #[allow(clippy::too_many_arguments, clippy::needless_lifetimes, clippy::just_underscores_and_digits, clippy::extra_unused_type_parameters)]
 fn __action6<
 >(
     (_, l, _): (i64, i64, i64),
+    (_, r, _): (i64, i64, i64),
+) -> Tree
+{
+    node("C#0", l, r, vec![])
+}
+
+#[allow(clippy::too_many_arguments, clippy::needless_lifetimes, clippy::just_underscores_and_digits, clippy::extra_unused_type_parameters)]
+fn __action7<
+>(
+    (_, l, _): (i64, i64, i64),
     (_, c0, _): (i64, Tok, i64),
     (_, r, _): (i64, i64, i64),
 ) -> Tree
 {
-    node("Z#1", l, r, vec![Tree::from(c0)])
+    node("C#1", l, r, vec![Tree::from(c0)])
 }
 
 #[allow(clippy::needless_lifetimes, clippy::clone_on_copy)]
-fn __action7<
+fn __action8<
 >(
     __lookbehind: &i64,
     __lookahead: &i64,
@@ -704,7 +687,7 @@ fn __action7<
 }
 
 #[allow(clippy::needless_lifetimes, clippy::clone_on_copy)]
-fn __action8<
+fn __action9<
 >(
     __lookbehind: &i64,
     __lookahead: &i64,
@@ -715,17 +698,144 @@ fn __action8<
 
 #[allow(clippy::too_many_arguments, clippy::needless_lifetimes,
     clippy::just_underscores_and_digits, clippy::clone_on_copy, clippy::unit_arg)]
-fn __action9<
+fn __action10<
 >(
-    __0: (i64, Tree, i64),
-    __1: (i64, Tree, i64),
-    __2: (i64, Tok, i64),
-    __3: (i64, i64, i64),
+    __0: (i64, i64, i64),
 ) -> Tree
 {
     let __start0 = __0.0.clone();
     let __end0 = __0.0.clone();
-    let __temp0 = __action8(
+    let __temp0 = __action9(
+        &__start0,
+        &__end0,
+    );
+    let __temp0 = (__start0, __temp0, __end0);
+    __action2(
+        __temp0,
+        __0,
+    )
+}
+
+#[allow(clippy::too_many_arguments, clippy::needless_lifetimes,
+    clippy::just_underscores_and_digits, clippy::clone_on_copy, clippy::unit_arg)]
+fn __action11<
+>(
+    __0: (i64, Tok, i64),
+    __1: (i64, i64, i64),
+) -> Tree
+{
+    let __start0 = __0.0.clone();
+    let __end0 = __0.0.clone();
+    let __temp0 = __action9(
+        &__start0,
+        &__end0,
+    );
+    let __temp0 = (__start0, __temp0, __end0);
+    __action3(
+        __temp0,
+        __0,
+        __1,
+    )
+}
+
+#[allow(clippy::too_many_arguments, clippy::needless_lifetimes,
+    clippy::just_underscores_and_digits, clippy::clone_on_copy, clippy::unit_arg)]
+fn __action12<
+>(
+    __0: (i64, i64, i64),
+) -> Tree
+{
+    let __start0 = __0.0.clone();
+    let __end0 = __0.0.clone();
+    let __temp0 = __action9(
+        &__start0,
+        &__end0,
+    );
+    let __temp0 = (__start0, __temp0, __end0);
+    __action4(
+        __temp0,
+        __0,
+    )
+}
+
+#[allow(clippy::too_many_arguments, clippy::needless_lifetimes,
+    clippy::just_underscores_and_digits, clippy::clone_on_copy, clippy::unit_arg)]
+fn __action13<
+>(
+    __0: (i64, Tok, i64),
+    __1: (i64, i64, i64),
+) -> Tree
+{
+    let __start0 = __0.0.clone();
+    let __end0 = __0.0.clone();
+    let __temp0 = __action9(
+        &__start0,
+        &__end0,
+    );
+    let __temp0 = (__start0, __temp0, __end0);
+    __action5(
+        __temp0,
+        __0,
+        __1,
+    )
+}
+
+#[allow(clippy::too_many_arguments, clippy::needless_lifetimes,
+    clippy::just_underscores_and_digits, clippy::clone_on_copy, clippy::unit_arg)]
+fn __action14<
+>(
+    __0: (i64, i64, i64),
+) -> Tree
+{
+    let __start0 = __0.0.clone();
+    let __end0 = __0.0.clone();
+    let __temp0 = __action9(
+        &__start0,
+        &__end0,
+    );
+    let __temp0 = (__start0, __temp0, __end0);
+    __action6(
+        __temp0,
+        __0,
+    )
+}
+
+#[allow(clippy::too_many_arguments, clippy::needless_lifetimes,
+    clippy::just_underscores_and_digits, clippy::clone_on_copy, clippy::unit_arg)]
+fn __action15<
+>(
+    __0: (i64, Tok, i64),
+    __1: (i64, i64, i64),
+) -> Tree
+{
+    let __start0 = __0.0.clone();
+    let __end0 = __0.0.clone();
+    let __temp0 = __action9(
+        &__start0,
+        &__end0,
+    );
+    let __temp0 = (__start0, __temp0, __end0);
+    __action7(
+        __temp0,
+        __0,
+        __1,
+    )
+}
+
+#[allow(clippy::too_many_arguments, clippy::needless_lifetimes,
+    clippy::just_underscores_and_digits, clippy::clone_on_copy, clippy::unit_arg)]
+fn __action16<
+>(
+    __0: (i64, Tree, i64),
+    __1: (i64, Tree, i64),
+    __2: (i64, Tree, i64),
+    __3: (i64, Tok, i64),
+    __4: (i64, i64, i64),
+) -> Tree
+{
+    let __start0 = __0.0.clone();
+    let __end0 = __0.0.clone();
+    let __temp0 = __action9(
         &__start0,
         &__end0,
     );
@@ -736,172 +846,7 @@ fn __action9<
         __1,
         __2,
         __3,
-    )
-}
-
-#[allow(clippy::too_many_arguments, clippy::needless_lifetimes,
-    clippy::just_underscores_and_digits, clippy::clone_on_copy, clippy::unit_arg)]
-fn __action10<
->(
-    __0: (i64, Tok, i64),
-    __1: (i64, Tree, i64),
-    __2: (i64, i64, i64),
-) -> Tree
-{
-    let __start0 = __0.0.clone();
-    let __end0 = __0.0.clone();
-    let __temp0 = __action8(
-        &__start0,
-        &__end0,
-    );
-    let __temp0 = (__start0, __temp0, __end0);
-    __action2(
-        __temp0,
-        __0,
-        __1,
-        __2,
-    )
-}
-
-#[allow(clippy::too_many_arguments, clippy::needless_lifetimes,
-    clippy::just_underscores_and_digits, clippy::clone_on_copy, clippy::unit_arg)]
-fn __action11<
->(
-    __0: (i64, Tree, i64),
-    __1: (i64, Tok, i64),
-    __2: (i64, Tree, i64),
-    __3: (i64, i64, i64),
-) -> Tree
-{
-    let __start0 = __0.0.clone();
-    let __end0 = __0.0.clone();
-    let __temp0 = __action8(
-        &__start0,
-        &__end0,
-    );
-    let __temp0 = (__start0, __temp0, __end0);
-    __action3(
-        __temp0,
-        __0,
-        __1,
-        __2,
-        __3,
-    )
-}
-
-#[allow(clippy::too_many_arguments, clippy::needless_lifetimes,
-    clippy::just_underscores_and_digits, clippy::clone_on_copy, clippy::unit_arg)]
-fn __action12<
->(
-    __0: (i64, Tree, i64),
-    __1: (i64, Tree, i64),
-    __2: (i64, i64, i64),
-) -> Tree
-{
-    let __start0 = __0.0.clone();
-    let __end0 = __0.0.clone();
-    let __temp0 = __action8(
-        &__start0,
-        &__end0,
-    );
-    let __temp0 = (__start0, __temp0, __end0);
-    __action4(
-        __temp0,
-        __0,
-        __1,
-        __2,
-    )
-}
-
-#[allow(clippy::too_many_arguments, clippy::needless_lifetimes,
-    clippy::just_underscores_and_digits, clippy::clone_on_copy, clippy::unit_arg)]
-fn __action13<
->(
-    __0: (i64, Tok, i64),
-    __1: (i64, Tok, i64),
-    __2: (i64, i64, i64),
-) -> Tree
-{
-    let __start0 = __0.0.clone();
-    let __end0 = __0.0.clone();
-    let __temp0 = __action8(
-        &__start0,
-        &__end0,
-    );
-    let __temp0 = (__start0, __temp0, __end0);
-    __action5(
-        __temp0,
-        __0,
-        __1,
-        __2,
-    )
-}
-
-#[allow(clippy::too_many_arguments, clippy::needless_lifetimes,
-    clippy::just_underscores_and_digits, clippy::clone_on_copy, clippy::unit_arg)]
-fn __action14<
->(
-    __0: (i64, Tok, i64),
-    __1: (i64, i64, i64),
-) -> Tree
-{
-    let __start0 = __0.0.clone();
-    let __end0 = __0.0.clone();
-    let __temp0 = __action8(
-        &__start0,
-        &__end0,
-    );
-    let __temp0 = (__start0, __temp0, __end0);
-    __action6(
-        __temp0,
-        __0,
-        __1,
-    )
-}
-
-#[allow(clippy::too_many_arguments, clippy::needless_lifetimes,
-    clippy::just_underscores_and_digits, clippy::clone_on_copy, clippy::unit_arg)]
-fn __action15<
->(
-    __0: (i64, Tree, i64),
-    __1: (i64, Tree, i64),
-    __2: (i64, Tok, i64),
-) -> Tree
-{
-    let __start0 = __2.2.clone();
-    let __end0 = __2.2.clone();
-    let __temp0 = __action7(
-        &__start0,
-        &__end0,
-    );
-    let __temp0 = (__start0, __temp0, __end0);
-    __action9(
-        __0,
-        __1,
-        __2,
-        __temp0,
-    )
-}
-
-#[allow(clippy::too_many_arguments, clippy::needless_lifetimes,
-    clippy::just_underscores_and_digits, clippy::clone_on_copy, clippy::unit_arg)]
-fn __action16<
->(
-    __0: (i64, Tok, i64),
-    __1: (i64, Tree, i64),
-) -> Tree
-{
-    let __start0 = __1.2.clone();
-    let __end0 = __1.2.clone();
-    let __temp0 = __action7(
-        &__start0,
-        &__end0,
-    );
-    let __temp0 = (__start0, __temp0, __end0);
-    __action10(
-        __0,
-        __1,
-        __temp0,
+        __4,
     )
 }
 
@@ -909,22 +854,18 @@ fn __action16<
     clippy::just_underscores_and_digits, clippy::clone_on_copy, clippy::unit_arg)]
 fn __action17<
 >(
-    __0: (i64, Tree, i64),
-    __1: (i64, Tok, i64),
-    __2: (i64, Tree, i64),
+    __lookbehind: &i64,
+    __lookahead: &i64,
 ) -> Tree
 {
-    let __start0 = __2.2.clone();
-    let __end0 = __2.2.clone();
-    let __temp0 = __action7(
+    let __start0 = __lookbehind.clone();
+    let __end0 = __lookahead.clone();
+    let __temp0 = __action8(
         &__start0,
         &__end0,
     );
     let __temp0 = (__start0, __temp0, __end0);
-    __action11(
-        __0,
-        __1,
-        __2,
+    __action10(
         __temp0,
     )
 }
@@ -933,20 +874,18 @@ fn __action17<
     clippy::just_underscores_and_digits, clippy::clone_on_copy, clippy::unit_arg)]
 fn __action18<
 >(
-    __0: (i64, Tree, i64),
-    __1: (i64, Tree, i64),
+    __0: (i64, Tok, i64),
 ) -> Tree
 {
-    let __start0 = __1.2.clone();
-    let __end0 = __1.2.clone();
-    let __temp0 = __action7(
+    let __start0 = __0.2.clone();
+    let __end0 = __0.2.clone();
+    let __temp0 = __action8(
         &__start0,
         &__end0,
     );
     let __temp0 = (__start0, __temp0, __end0);
-    __action12(
+    __action11(
         __0,
-        __1,
         __temp0,
     )
 }
@@ -955,20 +894,18 @@ fn __action18<
     clippy::just_underscores_and_digits, clippy::clone_on_copy, clippy::unit_arg)]
 fn __action19<
 >(
-    __0: (i64, Tok, i64),
-    __1: (i64, Tok, i64),
+    __lookbehind: &i64,
+    __lookahead: &i64,
 ) -> Tree
 {
-    let __start0 = __1.2.clone();
-    let __end0 = __1.2.clone();
-    let __temp0 = __action7(
+    let __start0 = __lookbehind.clone();
+    let __end0 = __lookahead.clone();
+    let __temp0 = __action8(
         &__start0,
         &__end0,
     );
     let __temp0 = (__start0, __temp0, __end0);
-    __action13(
-        __0,
-        __1,
+    __action12(
         __temp0,
     )
 }
@@ -982,13 +919,79 @@ fn __action20<
 {
     let __start0 = __0.2.clone();
     let __end0 = __0.2.clone();
-    let __temp0 = __action7(
+    let __temp0 = __action8(
+        &__start0,
+        &__end0,
+    );
+    let __temp0 = (__start0, __temp0, __end0);
+    __action13(
+        __0,
+        __temp0,
+    )
+}
+
+#[allow(clippy::too_many_arguments, clippy::needless_lifetimes,
+    clippy::just_underscores_and_digits, clippy::clone_on_copy, clippy::unit_arg)]
+fn __action21<
+>(
+    __lookbehind: &i64,
+    __lookahead: &i64,
+) -> Tree
+{
+    let __start0 = __lookbehind.clone();
+    let __end0 = __lookahead.clone();
+    let __temp0 = __action8(
         &__start0,
         &__end0,
     );
     let __temp0 = (__start0, __temp0, __end0);
     __action14(
+        __temp0,
+    )
+}
+
+#[allow(clippy::too_many_arguments, clippy::needless_lifetimes,
+    clippy::just_underscores_and_digits, clippy::clone_on_copy, clippy::unit_arg)]
+fn __action22<
+>(
+    __0: (i64, Tok, i64),
+) -> Tree
+{
+    let __start0 = __0.2.clone();
+    let __end0 = __0.2.clone();
+    let __temp0 = __action8(
+        &__start0,
+        &__end0,
+    );
+    let __temp0 = (__start0, __temp0, __end0);
+    __action15(
         __0,
+        __temp0,
+    )
+}
+
+#[allow(clippy::too_many_arguments, clippy::needless_lifetimes,
+    clippy::just_underscores_and_digits, clippy::clone_on_copy, clippy::unit_arg)]
+fn __action23<
+>(
+    __0: (i64, Tree, i64),
+    __1: (i64, Tree, i64),
+    __2: (i64, Tree, i64),
+    __3: (i64, Tok, i64),
+) -> Tree
+{
+    let __start0 = __3.2.clone();
+    let __end0 = __3.2.clone();
+    let __temp0 = __action8(
+        &__start0,
+        &__end0,
+    );
+    let __temp0 = (__start0, __temp0, __end0);
+    __action16(
+        __0,
+        __1,
+        __2,
+        __3,
         __temp0,
     )
 }
